@@ -121,8 +121,7 @@ def to_hashable(data: Any) -> Any:
     if isinstance(data, list):
         return tuple(map(to_hashable, data))
     elif isinstance(data, dict):
-        sorted_keys = sorted(data)
-        return tuple(sorted_keys + [to_hashable(data[k]) for k in sorted_keys])
+        return frozenset((k, to_hashable(v)) for k, v in data.items())
     else:
         return data
 
@@ -135,7 +134,10 @@ class UniqueItemsConstraint(Constraint):
         assert self.unique
 
     def validate(self, data: Any) -> bool:
-        return len(set(map(to_hashable, data))) == len(data)
+        try:
+            return len(set(map(to_hashable, data))) == len(data)
+        except TypeError:  # unhashable element which is neither a list nor a dict
+            return all(elt not in data[:i] for i, elt in enumerate(data))
 
 
 @dataclass
